@@ -1,5 +1,5 @@
 (* C01 -- Without escape, the evolved population equals its closed-form value.
-   PARTIAL (see DESIGN.md): proved here is the analytic heart - the closed form
+   PARTIAL (see DESIGN.md): proved here (and in C01b.v, C01c.v) is the analytic heart - the closed form
    for the stars of the bin that is turning off solves exactly the ODE the code
    integrates - and the deposit cone used by C05.  The per-remnant-bin
    pre-image integral and the convergence of dopri5 are validated against the
